@@ -46,8 +46,17 @@ TrStmt ==
      ELSE /\ seq' >= seq                             \* only the counter may move
           /\ elems' = elems /\ journal' = journal /\ vlog' = vlog
 
+\* a reader that ran while the writer sat at one of its backend mutations: it was held by the nexus lock
+\* (empty answer list), or it saw the state before the statement, or the state after it - never a mixture
+TrConc ==
+  /\ IsEv("conc")
+  /\ \A j \in 1..Len(Ev.reads) :
+        LET d == Ev.reads[j][2] IN d = <<>> \/ d = Ev.pre \/ d = Ev.post
+  /\ (~Ev.ok => Ev.pre = Ev.post)                    \* a refused statement changes no answer
+  /\ UNCHANGED <<nvars, tuples, keys>>
+
 TraceInit == Init /\ l = 2 /\ tuples = {} /\ keys = {}
-TraceNext == TrReset \/ TrInit \/ TrStmt
+TraceNext == TrReset \/ TrInit \/ TrStmt \/ TrConc
 TraceSpec == TraceInit /\ [][TraceNext]_tvars
 
 \* the same proposition tuple always resolves to one element
@@ -58,7 +67,6 @@ KeyUnique == \A p, q \in keys : p[1] = q[1] => p[2] = q[2]
 TraceAccepted ==
   LET d == TLCGet("stats").diameter IN
   IF d = Len(Rec) THEN TRUE
-  ELSE /\ PrintT(<<"TRACE_REJECTED", d + 1, ToJson([e |-> Rec[d + 1].e, i |-> Rec[d + 1].i, outcome |-> Rec[d + 1].outcome,
-                                                     code |-> Rec[d + 1].code, text |-> Rec[d + 1].text])>>)
+  ELSE /\ PrintT(<<"TRACE_REJECTED", d + 1, ToJson([e |-> Rec[d + 1].e, i |-> Rec[d + 1].i, text |-> Rec[d + 1].text])>>)
        /\ FALSE
 =============================================================================
